@@ -485,7 +485,9 @@ def run_replay(mod, path):
 
 def main(argv):
     import importlib
+    import logging
 
+    logging.disable(logging.WARNING)
     if len(argv) < 2:
         print("usage: check CNN quick|thorough | check CNN --replay FILE")
         return 2
